@@ -891,6 +891,7 @@ def case_history(ctx, c, family="hist"):
     if tail:
         plan += ["tail-dh", "tail-self", "tail-cross", "tail-subset", "tail-self"][: int(g.integers(2, 6))]
     nfixed_run = 0
+    dirty = False
     for kind in plan:
         n = pg.ntaxa
         nfixed_run = nfixed_run + 1 if G.allfixed else 0
@@ -915,7 +916,8 @@ def case_history(ctx, c, family="hist"):
                 elif kind == "copy":
                     new, op, site = do_copy(ctx, g, pg, twin); icls_k = O.COPY_ICLS
                 elif kind == "reread":
-                    new, op, site = pg, {"op": "none (the same objects are read again)"}, "no operation"; icls_k = O.REREAD_ICLS
+                    new, op, site = pg, {"op": "none (the same objects are read again)"}, "no operation"
+                    icls_k = O.INPLACE_ICLS if dirty else O.REREAD_ICLS     # (the object keeps its past)
                     ctx.hook("generations read again from unchanged objects")
                 elif kind == "delete":   # selection through the complement: a fresh object, the twin derived the same way
                     keep = select(g, gref, pick_size(g, 2, cap=n - 1), ["best", "worst", "random"][int(g.integers(3))])
@@ -981,6 +983,7 @@ def case_history(ctx, c, family="hist"):
             continue
         if pool and kind == "mate":
             twin["ug"] = None
+        dirty = (dirty and kind == "reread") or (pool and kind in INPLACE_KINDS)   # object changed in place since it was made
         icls_t = None
         narrow = bool(op.get("index_times_nvrnt_exceeds_dtype") or (op.get("mating") or {}).get("index_times_nvrnt_exceeds_dtype"))
         if op.get("op") == "mate" and g.random() < 0.85:
